@@ -126,10 +126,15 @@ impl<H: Host> Emulator<H> {
     }
 
     pub fn load_snapshot(&mut self, snapshot: Snapshot<impl SnapshotAsset>) -> Result<()> {
-        match snapshot {
+        let result = match snapshot {
             Snapshot::Sna(asset) => snapshot::sna::load(self, asset),
             Snapshot::Szx(asset) => snapshot::szx::load(self, asset),
+        };
+        if result.is_err() {
+            // Part of the file may have reached RAM before the load failed
+            self.controller.refresh_memory_dependent_devices();
         }
+        result
     }
 
     pub fn save_snapshot<R>(&mut self, recorder: SnapshotRecorder<R>) -> Result<()>
@@ -181,11 +186,14 @@ impl<H: Host> Emulator<H> {
     }
 
     pub fn load_screen(&mut self, screen: Screen<impl ScreenAsset>) -> Result<()> {
-        match screen {
-            Screen::Scr(asset) => screenshot::scr::load(self, asset)?,
+        let result = match screen {
+            Screen::Scr(asset) => screenshot::scr::load(self, asset),
         };
-
-        Ok(())
+        if result.is_err() {
+            // Part of the file may have reached RAM before the load failed
+            self.controller.refresh_memory_dependent_devices();
+        }
+        result
     }
 
     pub fn play_tape(&mut self) {
